@@ -83,7 +83,15 @@ func (w *c7World) doClose(who string) {
 	// at the very instant a Close call returns (also a repeated or overlapping one) the tear-down it promises is complete
 	if !pan {
 		// (the goroutines Close has to wait for: the per-subscription tear-down / replay goroutines and the decorator pumps)
-		if alive := LibGoroutinesCreatedBy(w.r.Sim, "gochannel.(*GoChannel).Subscribe", "message.(*messageTransformSubscriberDecorator).Subscribe"); len(alive) > 0 {
+		// a goroutine that is merely runnable at this instant may just be running its last statements (upstream's own
+		// tear-down goroutine still has deferred unlocks to run after it released Close); one that WAITS for something is not done
+		var alive []simrt.GInfo
+		for _, g := range LibGoroutinesCreatedBy(w.r.Sim, "gochannel.(*GoChannel).Subscribe", "message.(*messageTransformSubscriberDecorator).Subscribe") {
+			if g.Waiting {
+				alive = append(alive, g)
+			}
+		}
+		if len(alive) > 0 {
 			g := alive[0]
 			w.r.Fail("C07.R5", "a Close call returned while subscription tear-down goroutines were still running", "%s: %d goroutines, e.g. g%d created by %s, %s at %s", who, len(alive), g.ID, g.Created, g.State, g.Site)
 		}
